@@ -163,6 +163,26 @@ int main(void) {
             m2 = gss_unwrap(&min, c, &wb, &o, &conf, &q);
             printf("{\"rc\":0,\"mic\":%u,\"unwrap\":%u,", (unsigned)m1, (unsigned)m2); puthex("plain", GSS_ERROR(m2) ? (unsigned char *)"" : o.value, GSS_ERROR(m2) ? 0 : o.length);
             printf(",\"out\":\"\"}\n");
+        } else if (!strcmp(tok[0], "gssinit") && nt == 5) {
+            /* gssinit <user@REALM> <password> <service@host> <spnego|krb5> : log in and print the initiator's first context token */
+            krb5_principal me = NULL; krb5_creds tgt; krb5_ccache cc = NULL; krb5_get_init_creds_opt *opt = NULL; memset(&tgt, 0, sizeof tgt);
+            krb5_error_code rc = krb5_parse_name(ctx, tok[1], &me);
+            if (!rc) rc = krb5_get_init_creds_opt_alloc(ctx, &opt);
+            if (!rc) rc = krb5_get_init_creds_password(ctx, &tgt, me, tok[2], NULL, NULL, 0, NULL, opt);
+            if (!rc) rc = krb5_cc_default(ctx, &cc);
+            if (!rc) rc = krb5_cc_initialize(ctx, cc, me);
+            if (!rc) rc = krb5_cc_store_cred(ctx, cc, &tgt);
+            OM_uint32 maj = 0, min = 0; gss_name_t target = GSS_C_NO_NAME; gss_ctx_id_t c = GSS_C_NO_CONTEXT;
+            gss_buffer_desc nb = {strlen(tok[3]), tok[3]}, itok = {0, NULL};
+            static gss_OID_desc spnego_oid = {6, (void *)"\x2b\x06\x01\x05\x05\x02"};
+            if (!rc) { maj = gss_import_name(&min, &nb, GSS_C_NT_HOSTBASED_SERVICE, &target); if (GSS_ERROR(maj)) rc = -2; }
+            if (!rc) {
+                maj = gss_init_sec_context(&min, GSS_C_NO_CREDENTIAL, &c, target, !strcmp(tok[4], "spnego") ? &spnego_oid : (gss_OID)gss_mech_krb5, GSS_C_INTEG_FLAG, 0,
+                                           GSS_C_NO_CHANNEL_BINDINGS, GSS_C_NO_BUFFER, NULL, &itok, NULL, NULL);
+                if (GSS_ERROR(maj)) rc = -3;
+            }
+            printf("{\"rc\":%d,\"major\":%u,\"minor\":%u,", (int)rc, (unsigned)maj, (unsigned)min); puthex("token", rc ? (unsigned char *)"" : itok.value, rc ? 0 : itok.length);
+            printf(",\"out\":\"\"}\n");
         } else if (!strcmp(tok[0], "gssaccept") && nt == 2) {
             /* gssaccept <token> : a fresh acceptor (keytab KRB5_KTNAME, any principal in it) is given an initial context token (SPNEGO or raw
              * Kerberos); prints whether it was accepted, the client's name and the service principal the ticket was issued for */
